@@ -73,7 +73,7 @@ func init() {
 	reg(&Property{
 		ID:          "C05",
 		Explanation: "Decides that printer and parser of each text format use the same tables (T1): one time layout constant at every Format/Parse of anchors and bounds; %q paired with strconv.Unquote and the anchor delimiter; the literal separator; node delimiters; Triple.String's separators accepted by the compiled split patterns; WriteGraph's terminator vs the reader's split function; literal type names lexer = parser = printer (X5); the reader/writer counting discipline (IO1). Also: T2 conversion table, T2b the text between the quotes reaches the conversion unchanged. Not decided: round-trip equality for all values.",
-		Rules:       []func(*Ctx){ruleT2b, ruleT1, ruleT2, ruleIO1},
+		Rules:       []func(*Ctx){func(c *Ctx) { ruleFS1(c, "triple/...", "io") }, func(c *Ctx) { ruleS3c(c, "triple/...", "io") }, ruleT2b, ruleT1, ruleT2, ruleIO1},
 		Level:       "sibling table agreement between printers and parsers (T1), must-pass-through on the line reader (IO1)",
 		Trusted:     []string{"fmt verbs, strconv.Unquote, regexp and bufio.ScanLines behave as documented", trustedCore},
 		NotDecided:  []string{"round-trip equality for all values (ids containing delimiters, extreme numbers, zones, text containing the literal separator) — value-level", "the unescaped \"%v\" in Literal.String"},
@@ -81,7 +81,7 @@ func init() {
 	reg(&Property{
 		ID:          "C06",
 		Explanation: "Decides: H1 every varint buffer can hold a 64-bit value; H2 the byte strings hashed by the identity methods show none of the certain non-injectivity patterns (adjacent variable segments, untagged bare-variable or equal-length alternatives, optional suffix after a variable segment, untagged delegation), Triple.UUID tiles its buffer with the full UUIDs of subject, predicate, object, no zone-dependent rendering is hashed, Triple.Equal is uuid.Equal of the two UUIDs; H3 no clock/random/pid/map-order dependency and pooled buffers are reset. H2 only refutes injectivity; it never proves it. Also: H1x varint hashed whole (array- or slice-backed), H3x pooled buffers released last.",
-		Rules:       []func(*Ctx){ruleH1, ruleH1x, ruleH2, ruleH3, ruleH3x},
+		Rules:       []func(*Ctx){func(c *Ctx) { ruleS3c(c, "triple/...", "io") }, ruleH1, ruleH1x, ruleH2, ruleH3, ruleH3x},
 		Level:       "symbolic framing analysis of every hashed byte string over all paths of the seven identity methods (H2), buffer capacity (H1), determinism by reachability (H3)",
 		Trusted:     []string{"SHA-1 collision freedom", "uuid.NewSHA1 hashes exactly the bytes given", trustedCore},
 		NotDecided:  []string{"injectivity as such (suffix-code reasoning is not attempted)", "SHA-1 collisions"},
@@ -162,7 +162,7 @@ func init() {
 	reg(&Property{
 		ID:          "C15",
 		Explanation: "Decides: L1 every compiler-unproven index/slice in node/predicate/literal/triple/io is discharged by a guard re-verified on the current code; L2 no parser or builder returns (nil, nil), ParseObject included; IO1 the reader adds only parsed triples, counts only added ones, returns errors with the count so far and reports success only after consulting the scanner's error; T1 printer/parser table agreement. Also: T2/T2b conversion table and unchanged value text; L2b nil results only with a known non-nil error. Not decided: accepted text re-parses to an equal value.",
-		Rules: []func(*Ctx){ruleT2b, func(c *Ctx) { ruleL1(c, 20, "./triple/...", "./io/...") },
+		Rules: []func(*Ctx){func(c *Ctx) { ruleFS1(c, "triple/...", "io") }, ruleT2b, func(c *Ctx) { ruleL1(c, 20, "./triple/...", "./io/...") },
 			func(c *Ctx) { ruleL2(c, 20, "triple/...", "io") }, func(c *Ctx) { ruleL2b(c, 8, "triple/...", "io") }, ruleIO1, ruleT1, ruleT2},
 		Level:      "compiler prove pass + re-verified discharge table (L1), (nil,nil) contradiction rule (L2), must-pass-through on the reader (IO1)",
 		Trusted:    []string{"L1's reviewed entries for triple/…", "strings.Index / regexp.FindIndex contracts", trustedCore},
